@@ -1744,7 +1744,8 @@ def _format_t(path, root=T):
             prepr.append(f"[{index}]")
         elif op == '(':
             args, kwargs = arg
-            prepr.append(format_invocation(args=args, kwargs=kwargs, repr=bbrepr))
+            # (keyword arguments in the order they were given: the callee sees that order)
+            prepr.append(format_invocation(args=args, kwargs=list(kwargs.items()), repr=bbrepr))
         elif op == 'P':
             return _format_path(path, root)
         elif op == 'x':
